@@ -272,10 +272,15 @@ def gen_case(rng):
     if rng.random() < 0.35:
         # on a node shape the closed node is the focus node; on a property shape it is each value node
         s = S.new_shape(EX.Closed, None if rng.random() < 0.5 else ("pred", rng.choice(PREDS)))
-        s["targets"]["nodes"] = rng.sample(iri_nodes, rng.randint(1, 2))
+        s["targets"]["nodes"] = rng.sample(iri_nodes, min(len(iri_nodes), rng.randint(1, 3)))
         if s["path"] is not None:
             for _ in range(rng.randint(1, 2)):
                 data.add((rng.choice(s["targets"]["nodes"]), URIRef(s["path"][1]), rng.choice(iri_nodes)))
+            if rng.random() < 0.5:
+                # one value node shared by all the focus nodes: it is closed once per focus node that reaches it
+                shared = rng.choice(iri_nodes)
+                for t_ in s["targets"]["nodes"]:
+                    data.add((t_, URIRef(s["path"][1]), shared))
         props = []
         for j in range(rng.randint(0, 2)):
             ps = S.new_shape(BNode("cp%d" % j), ("pred", rng.choice(PREDS)) if rng.random() < 0.8 else ("inv", ("pred", rng.choice(PREDS))))
